@@ -481,6 +481,17 @@ def race_rules(repo):
             if isinstance(n, ast.Name) and isinstance(n.ctx, ast.Store):
                 inside.add(n.id)
         same = {pv}
+        # v = cast(prange var) / v = prange var, bound exactly once in the loop: another name for the iteration's own index
+        for s_ in loop.body:
+            if isinstance(s_, ast.Assign) and len(s_.targets) == 1 and isinstance(s_.targets[0], ast.Name):
+                v_ = s_.value
+                if isinstance(v_, ast.Call) and dotted(v_.func) in ("numpy.uint64", "numpy.int64", "int", "uint64", "int64") and len(v_.args) == 1:
+                    v_ = v_.args[0]
+                if isinstance(v_, ast.Name) and v_.id in same:
+                    nm_ = s_.targets[0].id
+                    n_b = sum(1 for x in ast.walk(loop) if isinstance(x, ast.Name) and x.id == nm_ and isinstance(x.ctx, ast.Store))
+                    if n_b == 1:
+                        same.add(nm_)
         outer = set()
         for s in fi.node.body:
             if s is loop:
